@@ -677,6 +677,85 @@ class BleHarness:
         w.close()
 
 
+def cancel_sweep(res: Result, only: str | None = None) -> int:
+    """'Every finished operation leaves nothing subscribed' when the *caller* ends it: every operation kind cancelled while it waits, in
+    the loop turn in which its completing message has just been read, and in the turn in which its own timeout has just fired.  However
+    the call ends, afterwards (and after using whatever unsubscribe handle it returned) the handler table and the timers are as before
+    the call, and later messages for that address reach no callback of it."""
+    n = 0
+    ops = {"conn@1": "CU:1", "read@1.1": "R:1.1", "readd@1.1": "R:1.1", "write@1.1": "W:1.1", "writed@1.1": "W:1.1", "notify@1.1": "N:1.1",
+           "pair@1": "P:1", "unpair@1": "U:1", "clear@1": "K:1", "disc@1": "CD:1", "svc@1": "SD:1", "conn@2": "CD:2"}
+    h0 = BleHarness((), (), "none")
+    w0 = h0.fresh()
+    try:
+        base_timers = sorted(timer_name(x) for x in w0.loop.live_timers())
+    finally:
+        h0.close(w0)
+    for op, done_atom in ops.items():
+        for timing in ("while-waiting", "completing-message-just-read", "own-timeout-just-fired", "foreign-message-just-read"):
+            key = f"cancel:{op}:{timing}"
+            if only is not None and key != only:
+                continue
+            h = BleHarness((op,), (), "none")
+            w = h.fresh()
+            try:
+                kind, a, hh = parse_op(op)
+                r = w.ref[op]
+                if timing == "completing-message-just-read":
+                    h.apply(w, ["nd", "m:" + done_atom])
+                elif timing == "foreign-message-just-read":
+                    h.apply(w, ["nd", f"m:CU:{3 - a}"])
+                elif timing == "own-timeout-just-fired":
+                    w.loop.advance_to(r.due)
+                    w.step()
+                w.cancel(op)
+                w.drain()
+                w.run_timers(w.loop.time() + 0.5)
+                n += 1
+                d = {"harness": "c16-cancel", "key": key}
+                out = w.results.get(op)
+                if out is None and not (kind == "conn" and timing == "own-timeout-just-fired"):
+                    res.add(key, f"C16:cancel:{op} cancelled ({timing}) but the call never ended", d)
+                    continue
+                if out is None:
+                    # a device connect whose timeout fired first goes on to disconnect the peripheral; let that run its course
+                    w.run_timers(w.loop.time() + 80.0)
+                    out = w.results.get(op)
+                    if out is None:
+                        res.add(key, f"C16:cancel:{op} cancelled ({timing}) but the call never ended", d)
+                        continue
+                if out[0] == "ok":
+                    val = out[1]
+                    try:
+                        if kind == "conn" and callable(val):
+                            val()
+                        elif kind == "notify" and isinstance(val, tuple):
+                            val[1]()
+                    except Exception as e:  # noqa: BLE001
+                        res.add(key, f"C16:cancel:the unsubscribe handle returned by {op} raised {type(e).__name__}: {e}", d)
+                w.drain()
+                table = w.handler_table()
+                if w.is_open() and table is not None and table != w.base_handlers:
+                    diff = {k: (table.get(k, 0), (w.base_handlers or {}).get(k, 0)) for k in set(table) | set(w.base_handlers or {})
+                            if table.get(k, 0) != (w.base_handlers or {}).get(k, 0)}
+                    res.add(key, f"C16:leftover-handler:{op} ended {w.outcome(op)} after the caller cancelled it ({timing}); handlers left registered "
+                            f"(actual, baseline): {diff}", d)
+                    continue
+                timers = sorted(timer_name(x) for x in w.loop.live_timers())
+                if timers != base_timers:
+                    res.add(key, f"C16:leftover-timer:{op} ended {w.outcome(op)} after the caller cancelled it ({timing}); timers {timers}, baseline {base_timers}", d)
+                    continue
+                before = len(w.cbs[op])
+                for atom in (f"CU:{a}", f"CD:{a}") + ((f"D:{a}.{hh}",) if hh else ()):
+                    h.apply(w, "m:" + atom)
+                if len(w.cbs[op]) != before:
+                    res.add(key, f"C16:leftover-callback:{op} ended {w.outcome(op)} after the caller cancelled it ({timing}), yet its callback was still "
+                            f"invoked by later messages: {w.cbs[op][before:]}", d)
+            finally:
+                h.close(w)
+    return n
+
+
 def factory(ops: tuple[str, ...], late: tuple[str, ...], pairs: str) -> BleHarness:
     return BleHarness(ops, late, pairs)
 
@@ -716,6 +795,7 @@ def run(tier: str, seed: int) -> Result:
             res.add(f"{kind}", clause, {"harness": "c16", "ops": list(ops), "late": list(late), "pairs": pairs, "choices": v["choices"],
                                         "violated": v["violated"], "observations": v["observations"]})
         total.merge(st)
+    n_cancel = cancel_sweep(res)
     ends = {k[4:] for k in total.tags if k.startswith("end:")}
     need = {"read:ok", "read:BluetoothGATTAPIError", "read:BluetoothConnectionDroppedError", "read:TimeoutAPIError", "conn:ok", "conn:TimeoutAPIError"}
     if not res.violations and not need <= ends:
@@ -726,6 +806,7 @@ def run(tier: str, seed: int) -> Result:
         "traces_validated_against_impl": total.executions,
         "executions": total.executions,
         "endings_observed": sorted(ends),
+        "caller_cancellation_runs": n_cancel,
         "distinct_outcomes": len(total.outcomes),
         "configs": per_cfg,
         "exhaustive": not total.time_capped,
@@ -738,7 +819,8 @@ def run(tier: str, seed: int) -> Result:
         "get-services treats a GATT error for its address (any handle) and a connection change for its address as its own failure",
         "a timed-out device connect: disconnect request for its address written at the timeout instant, TimeoutAPIError when the disconnect is confirmed "
         "or 20 s later; its connection-state callback is not invoked after the timeout",
-        "caller-side cancellation is not part of this alphabet (C11 covers cancellation of the request/response core)",
+        "caller-side cancellation is not part of the exploration alphabet; a separate sweep cancels every operation kind at three instants "
+        "(waiting / completing message just read / own timeout just fired) and audits what is left",
         "subscription audit reads the connection's handler table (skipped if unreadable)",
     ]
     return res
@@ -746,6 +828,11 @@ def run(tier: str, seed: int) -> Result:
 
 def replay(rp: dict[str, Any]) -> bool:
     d = rp["detail"]
+    if d.get("harness") == "c16-cancel":
+        r = Result("C16", "model_checking")
+        cancel_sweep(r, only=d["key"])
+        print(d["key"], "->", [v.clause for v in r.violations] or "holds")
+        return not r.violations
     h = factory(tuple(d["ops"]), tuple(d["late"]), d["pairs"])
     w = h.fresh()
     try:
